@@ -55,17 +55,27 @@ class Observation:
         self.orphans = []
 
 
-def observe(parent, x_node, items, inner=None, monitor=True, prelude=None):
+def observe(parent, x_node, items, inner=None, monitor=True, prelude=None, reuse=False):
     """x_node: ['roll', w, s, None] etc. (pipeline slot None is filled with [to_list] or `inner`)"""
     log = []
     x = copy.deepcopy(x_node)
     x[-1] = inner if inner is not None else [['to_list']]
+    if reuse:
+        # ONE operator object serves two pipelines, one after the other, at different nesting depths (a module-level
+        # `rolling = rs.data.roll(...)` used at the top level and inside a group_by): first a throw-away run, then the judged one
+        x_op = progs.build_node(x, taps={(0,): (ttap(log, 'I'), None)}, path=(0,))
+        warm = [x_op] if parent is not None else [rs.ops.group_by(lambda i: 0, [x_op])]
+        subscribe(rx.from_(items[:max(3, len(items) // 2)]).pipe(rs.state.with_memory_store(warm)), Snap())
+        del log[:]
+        x = ['prebuilt', x_op]
     prog, ppath = nest(parent, [x])
     if parent is None:
-        taps = {(0,): (ttap(log, 'I'), None)}
+        taps = {(0,): (ttap(log, 'I'), None)} if not reuse else {}
         ops_ = [ttap(log, 'O')] + progs.build(prog, taps=taps) + [ttap(log, 'T')]
     else:
-        taps = {ppath: (ttap(log, 'O'), ttap(log, 'T')), ppath + (0,): (ttap(log, 'I'), None)}
+        taps = {ppath: (ttap(log, 'O'), ttap(log, 'T'))}
+        if not reuse:
+            taps[ppath + (0,)] = (ttap(log, 'I'), None)
         ops_ = progs.build(prog, taps=taps)
     ob = Observation()
     ob.log = log
@@ -87,7 +97,7 @@ def observe(parent, x_node, items, inner=None, monitor=True, prelude=None):
         ob.snap = run()
     if prelude and ob.snap.err is not None:
         # an error that the same program also produces without any history is not the history's (see progs.run_mux)
-        fresh = observe(parent, x_node, items, inner, monitor, None)
+        fresh = observe(parent, x_node, items, inner, monitor, None, reuse)
         if fresh.snap.err is not None:
             return fresh
     ob.monitor = mon
